@@ -38,6 +38,16 @@ CHECKS = {
                                                       "params satisfy the module's validators; ReferralCommission + PolRatio <= 100"],
         "outside": ["durations above 100000 days (time.Duration wraps beyond ~106751 days)", "price fairness (only consistency with the chain's own price function)"],
     },
+    "C05": {
+        "groups": [{"pkgs": "./x/storage/keeper", "fns": ["VH_C05_*"], "opts": {"j": 2, "w": 8}},
+                   {"pkgs": "./x/jklmint/keeper", "fns": ["VH_C05_*"], "opts": {"j": 1, "w": 8}}],
+        "covers": ["C05/reward-block-reached", "C05/reward-gate-reached", "C05/jklmint-beginblock-reached"],
+        "bounds": {"files": 1, "provers": "1 (quick) / 2 (thorough)", "file size": "classes {0,-1,-5000,2^62,2^63-1,-2^63} and symbolic [1,2^40]; replication = prover count bound"},
+        "assumptions": A_COMMON + A_STORE + A_BANK + ["params satisfy the modules' validators (executed)",
+                       "cut: the gauge payout inside the reward block is an arbitrary amount (the real gauge code is shown panic-free by C12/pull-never-panics under the gauge invariant)"],
+        "explanation": "BeginBlock of storage (RunRewardBlock) and jklmint (BlockMint) executed from their real code; the BeginBlock/EndBlock methods of filetree, notifications, oracle and rns have empty bodies (x/*/module.go) and EndBlock of storage and jklmint return an empty slice",
+        "outside": ["BeginBlock/EndBlock of cosmos-sdk, ibc-go and wasmd modules, the ante handler, baseapp", "states larger than the bounds"],
+    },
     "C08": {
         "groups": [{"pkgs": "./x/rns/keeper", "fns": ["VH_C08_*"]}],
         "covers": ["C08/buy-succeeds", "C08/buy-fails", "C08/buy-ownership-moved"],
